@@ -247,8 +247,30 @@ def run_accept_property(rep, pid, runs, tier, seed, diff_cfgs=None, obligations_
     return ctx
 
 
+COUNT_OBL = 'C06/a_dispatched_connection_is_counted_before_its_worker_can_see_it'
+COUNT_REPLAY = dict(cfg=dict(S=1, steps=4, env_per_step=2, max_conns=2, actions=('conn', 'finish', 'stop')), timeout=5000, tokens=['send:0', 'poll:o', 'stop:1', 'poll:'],
+                    obligation='C06/graceful_true_only_with_no_connection_in_progress')
+
+
+def report_count_violation(rep, pid, ctx, cfg, v):
+    """The accept loop hands a connection to a worker before counting it. Consequence, replayed on the real ServerWorker::poll
+    (native worker driver): the worker serves it, a graceful Stop arrives before the count, and the worker answers `true` (idle)
+    with the connection still in progress."""
+    from props import srvnative, wrkworld
+    d = COUNT_REPLAY
+    line = wrkworld.header(d['cfg'], d['timeout']) + ' | ' + ' '.join(d['tokens'])
+    trace = srvnative.run_schedules([line], mode='worker')[0]
+    bad = wrkworld.judge_native(ctx, d['cfg'], d['tokens'], d['timeout'], trace)
+    fkey = '%s: W=%d L=%d hist=[%s]' % (v['obligation'], cfg['W'], cfg['L'], ' '.join(re_sub_params(t) for t in v['hist']))
+    path = core.write_replay(pid, fkey, {'side': 'worker', 'cfg': d['cfg'], 'timeout': d['timeout'], 'tokens': d['tokens'], 'obligation': d['obligation'],
+                                         'accept_side_obligation': v['obligation'], 'accept_side_history': v['hist'], 'native_trace': trace, 'native_violations': sorted(bad)})
+    rep.violation(fkey, '%s -- %s; accept-side history=%s; consequence replayed on the real worker: %s -> %s' % (v['obligation'], v['what'], v['hist'], line, trace), replay=path,
+                  reproduced=(d['obligation'] in bad))
+
+
 def report_violation(rep, pid, ctx, cfg, v):
     from props import srvnative
+    if v['obligation'] == COUNT_OBL: return report_count_violation(rep, pid, ctx, cfg, v)
     limit = int(v['model'].get('limit', cfg.get('limit') or 1))
     tokens = srvnative.concretize([h for h in v['hist']], v['model'])
     if any(t == 'race:' for t in tokens):
